@@ -195,7 +195,7 @@ func Check(r *ev.Run, replay string) {
 	r.Set("scenarios", len(scs))
 	r.Set("preemption_bound", bound)
 	raceSupplement(r)
-	r.Set("rule", fmt.Sprintf("%d scenarios of 2-3 concurrent evaluations on separate VMs that meet on one piece of package-level or shared state (Go type registries via globals, field access and proxy calls; codec registry; a shared importer; one compiled code object on two VMs; two clones of one VM); the package caches are reset before every execution; every schedule of the lock and access hook points with at most %d preemptions (quick: 1 for the scenarios with three evaluations); oracle: vector-clock happens-before race detection on the hooked accesses + each result equals the result of that evaluation running alone from fresh caches (and one after the other gives the same). The same bodies also run free (6 rounds, thorough 40, x 4 copies of every body at once, caches reset per round) in a build with Go's race detector, which reports unsynchronised accesses that no hook names.", len(scs), bound))
+	r.Set("rule", fmt.Sprintf("%d scenarios of 2-3 concurrent evaluations on separate VMs that meet on one piece of package-level or shared state (Go type registries via globals, field access and proxy calls; codec registry; a shared importer; one compiled code object on two VMs; two clones of one VM; each of the seven codecs used by two evaluations at once, after a decode of a damaged input has failed in it); the package caches are reset before every execution; every schedule of the lock and access hook points with at most %d preemptions (quick: 1 for the scenarios with three evaluations); oracle: vector-clock happens-before race detection on the hooked accesses + each result equals the result of that evaluation running alone from fresh caches (and one after the other gives the same). The same bodies also run free (6 rounds, thorough 40, x 4 copies of every body at once, caches reset per round) in a build with Go's race detector, which reports unsynchronised accesses that no hook names; the self-contained evaluations among them (the codec scenarios) also have to return there what they return alone.", len(scs), bound))
 }
 
 func signature(v string) string {
@@ -233,6 +233,14 @@ func raceSupplement(r *ev.Run) {
 	}
 	out, _ := exec.Command(bin, rounds).CombinedOutput()
 	r.Set("race_supplement_rounds", rounds)
+	// self-contained evaluations also have to return, running free next to copies of themselves, what they return alone
+	for _, l := range strings.Split(string(out), "\n") {
+		if strings.HasPrefix(l, "RESULT-DIFFERS ") {
+			name, what, _ := strings.Cut(strings.TrimPrefix(l, "RESULT-DIFFERS "), " | ")
+			r.Report("C09:result-differs:free-running", name+"\n  "+what, map[string]any{"supplement": "go build -race ./cmd/c09race", "scenario": name}, what, "the result of the evaluation alone")
+			break
+		}
+	}
 	n := strings.Count(string(out), "WARNING: DATA RACE")
 	r.Set("race_supplement_reports", n)
 	if n > 0 {
